@@ -309,7 +309,8 @@ class GroupWorld(object):
             d = g.stop()
 
             def eb(f):
-                self.log.append("stopFired restop" if f.check(C.RestopError) else "stopFired err:" + kind_of(f.value))
+                # anything but RestopError is the machinery tripping over itself (model: `raise <class>`; monitor noInternalError)
+                self.log.append("stopFired restop" if f.check(C.RestopError) else "raise " + type(f.value).__name__)
 
             d.addCallbacks(lambda r: self.log.append("stopFired ok"), eb)
         elif op == "coordDone":
